@@ -23,7 +23,10 @@ def gen_rails(d, side, colang, allow_shipped=True):
         k = d.weighted(kinds, side, "kind", i)
         if k == "shipped":
             shipped_used = True
-        rails.append({"kind": k})
+        r = {"kind": k}
+        if k == "check" and colang == "1.0" and d.chance(0.4, side, "textparam", i):
+            r["text_param"] = True
+        rails.append(r)
     return rails
 
 
